@@ -40,6 +40,7 @@ func enumPaths(fn *ssa.Function, limit int) ([]*fnPath, bool) {
 			cur.exit = x
 			c := cur
 			if c.feasible() {
+				c.addResolvedConds()
 				out = append(out, &c)
 			}
 			return
@@ -69,9 +70,53 @@ func enumPaths(fn *ssa.Function, limit int) ([]*fnPath, bool) {
 	return out, complete
 }
 
+// addResolvedConds: a condition that is a phi (a boolean computed into a variable first:
+// `need := a && !b; if need {`) is, on this path, the value of the edge the path came through;
+// that value's truth is recorded as a condition of its own.
+func (fp *fnPath) addResolvedConds() {
+	n := len(fp.conds)
+	for i := 0; i < n; i++ {
+		ec := fp.conds[i]
+		v, neg := ec.cond, false
+		changed := false
+		for k := 0; k < 8; k++ {
+			if u, ok := v.(*ssa.UnOp); ok && u.Op == token.NOT {
+				neg = !neg
+				v = u.X
+				continue
+			}
+			if _, ok := v.(*ssa.Phi); ok {
+				rv := fp.resolveAt(v, ec.at.Block())
+				if rv == v {
+					break
+				}
+				v, changed = rv, true
+				continue
+			}
+			break
+		}
+		if !changed {
+			continue
+		}
+		if _, isC := v.(*ssa.Const); isC {
+			continue
+		}
+		fp.conds = append(fp.conds[:len(fp.conds):len(fp.conds)], edgeCond{cond: v, taken: ec.taken != neg, at: ec.at})
+	}
+}
+
 // feasible: no condition on the path is, along this very path, a boolean constant that
 // contradicts the edge taken (a flag set to true/false on the branch the path came through).
 func (fp *fnPath) feasible() bool {
+	// one value, one truth: the path does not repeat a block, so a condition value tested twice
+	// goes the same way both times
+	seen := map[ssa.Value]bool{}
+	for _, ec := range fp.conds {
+		if t, ok := seen[ec.cond]; ok && t != ec.taken {
+			return false
+		}
+		seen[ec.cond] = ec.taken
+	}
 	for _, ec := range fp.conds {
 		v := fp.resolveAt(ec.cond, ec.at.Block())
 		neg := false
